@@ -1968,7 +1968,7 @@ int xmp_start_player(xmp_context opaque, int rate, int format)
 	f->loop = (struct pattern_loop *) calloc(p->virt.virt_channels, sizeof(struct pattern_loop));
 	if (f->loop == NULL) {
 		ret = -XMP_ERROR_SYSTEM;
-		goto err;
+		goto err1;
 	}
 
 	p->xc_data = (struct channel_data *) calloc(p->virt.virt_channels, sizeof(struct channel_data));
